@@ -7,7 +7,7 @@
     [None]; [ser_msg fs vals] are the bytes ciborium writes, [de_msg fs b] reads bytes with
     ciborium and returns the message read, in the form of the CBOR it serialises to. *)
 From Coq Require Import String Sorted.
-From PK Require Import Lib.Cbor Wire.Serde Wire.SerdeFacts Wire.CtapSpec Wire.gen.CtapSchema Wire.gen.Status.
+From PK Require Import Lib.Cbor Wire.Serde Wire.SerdeFacts Wire.CtapSpec Wire.gen.CtapSchema Wire.gen.Status Wire.CtapCheck.
 Open Scope N_scope.
 
 (** (1) Every member of the six integer-keyed messages carries the number the CTAP specification
@@ -156,6 +156,24 @@ Theorem c13_client_status : forall b s, b < 256 -> status_of_byte b = Some s ->
   /\ register_error s = WAuthenticatorError b.
 Proof. exact client_status_mapping. Qed.
 
+(** (11) The oracle of the correspondence run (Wire/CtapCheck.v: the statement of C13 on one
+    observation, from the specification tables alone: top level a definite map in shortest form,
+    keys exactly the specified numbers of the members present, strictly ascending, no optional
+    member null, reads back equal; status byte converts back, authenticate reports it as
+    specified) is true of everything the model produces. *)
+Theorem c13_model_passes_oracle_ser : forall msg fs vals,
+  In (msg, fs) ALL_MESSAGES -> wt_fields fs vals = true ->
+  cbor_wf (ser_struct IntKeys (map fst fs) vals) = true ->
+  (depth (ser_struct IntKeys (map fst fs) vals) < cbor_fuel)%nat ->
+  oracle (CSer msg vals (present_names fs vals) (ser_msg fs vals)
+               (enc_opt (de_msg fs (ser_msg fs vals)))) = true.
+Proof. exact model_passes_oracle_ser. Qed.
+
+Theorem c13_model_passes_oracle_status : forall b s, b < 256 -> status_of_byte b = Some s ->
+  oracle (CStatus b (class_name s) (variant_name s) (byte_of_status s)
+                  (webauthn_error_of_status s) (authenticate_error s) (register_error s)) = true.
+Proof. exact model_passes_oracle_status. Qed.
+
 (** non-vacuity: a getAssertion request with an allow list, options and no extensions meets the
     hypotheses of (3); an unknown key, a text key and a duplicate behave as (4)-(6) say *)
 Definition ex_ga_request : list (option cbor) :=
@@ -215,3 +233,5 @@ Print Assumptions c13_status_round_trip.
 Print Assumptions c13_status_classes.
 Print Assumptions c13_status_zero.
 Print Assumptions c13_client_status.
+Print Assumptions c13_model_passes_oracle_ser.
+Print Assumptions c13_model_passes_oracle_status.
